@@ -25,7 +25,8 @@ def main():
         c = subprocess.run([CPROC, '-E', f], capture_output=True, text=True)
         gerr = g.returncode != 0 or 'error' in g.stderr
         cerr = c.returncode != 0
-        if gerr and cerr: st = 'both-reject'
+        if cerr and not gerr and 'not enough arguments' in c.stderr and '...' in text: st = 'c11-vs-c23-variadic'      # F(a, ...) invoked without variable arguments: C11 constraint, C23 valid
+        elif gerr and cerr: st = 'both-reject'
         elif gerr != cerr: st = 'ACCEPTANCE'
         elif toks(g.stdout) != toks(c.stdout): st = 'MISMATCH'
         else: st = 'ok'
